@@ -213,11 +213,13 @@ def rules(ck, P):
     if ck.anchor("R-TILESJSON", "build_tile_json", bt, 1):
         b = bt[0]
         lets = comp.lets_of(b)
-        start = [n for n in ir.walk_nodes(b["body"]) if n.get("k") == "let" and n["pat"].get("k") == "bind" and n["pat"]["name"] == "tilejson" and "init" in n]
-        ok1 = bool(start) and "get_tilejson().clone()" in ir.place_str(start[0]["init"]) or (bool(start) and ir.contains(start[0]["init"], lambda y: y.get("k") == "mcall" and y.get("name") == "get_tilejson"))
-        up2 = [n for n in ir.walk_nodes(b["body"]) if n.get("k") == "mcall" and n.get("name") == "update_from_pyramid" and ir.place_str(n["recv"]) == "tilejson"]
+        # the document is the local that is serialised at the end (Ok(<doc>.into())) — identified by type and use, not by name
+        start = [n for n in ir.walk_nodes(b["body"]) if n.get("k") == "let" and n["pat"].get("k") == "bind" and n["pat"].get("t", "").endswith("TileJSON") and "init" in n]
+        ok1 = len(start) == 1 and ir.contains(start[0]["init"], lambda y: y.get("k") == "mcall" and y.get("name") == "get_tilejson")
+        dh = start[0]["pat"]["hid"] if start else None
+        up2 = [n for n in ir.walk_nodes(b["body"]) if n.get("k") == "mcall" and n.get("name") == "update_from_pyramid" and ir.local_hid(n["recv"]) == dh]
         ok2 = len(up2) == 1 and comp.deep_place(up2[0]["a"][0], lets).endswith("get_parameters().bbox_pyramid")
-        tl = [n for n in ir.walk_nodes(b["body"]) if n.get("k") == "mcall" and n.get("name") == "set_list" and ir.const_eval_str(n["a"][0]) == "tiles"]
+        tl = [n for n in ir.walk_nodes(b["body"]) if n.get("k") == "mcall" and n.get("name") == "set_list" and ir.const_eval_str(n["a"][0]) == "tiles" and ir.local_hid(n["recv"]) == dh]
         ok3 = False
         if tl:
             for y in ir.walk_nodes(b["body"]):
